@@ -859,7 +859,8 @@ N_POOL = {'quick': [0, 2], 'thorough': [0, 1, 2, 3]}
 
 
 def inputs_for(fam, tier: str):
-    axes = [U_POOL[tier] if a == 'u' else N_POOL[tier] for a in fam.argnames]
+    n_pool = (fam.n_pool or N_POOL)[tier]
+    axes = [U_POOL[tier] if a == 'u' else n_pool for a in fam.argnames]
     return [tuple(t) for t in itertools.product(*axes)]
 
 
@@ -917,6 +918,7 @@ class Check(BaseCheck):
                          for fam in pg.FAMILIES},
             'transformations': self.transforms,
             'u_pool': [repr(x) for x in U_POOL[self.tier]], 'n_pool': N_POOL[self.tier],
+            'n_pool_overrides': {f.name: f.n_pool[self.tier] for f in pg.FAMILIES if f.n_pool},
         }
 
     def shards(self):
